@@ -29,6 +29,7 @@ fn main() {
     let seed: u64 = args[2].parse().expect("seed");
     let thorough = args[3] == "thorough";
     let mut out = Out::new(&args[4]);
+    out::start_watchdog();
     let extra: Vec<String> = args[5..].to_vec();
     match cmd {
         "c08" => c_alu::run(&mut out, seed, thorough),
